@@ -111,3 +111,10 @@ def run(ctx):
     bad = [(cl, c) for cl, c in ctx.violations if cl.startswith("ref_")]
     if bad:
         raise MachineryError("reference/spec disagreement: %s %r %r" % (bad[0][0], bad[0][1].get("case"), bad[0][1].get("_detail")))
+
+
+def redrive(ev):
+    e = json_event({"ty": ev["ty"], "val": ev["val"], "tag": ev.get("case", {}).get("tag", "")})
+    e.pop("text", None)
+    e.pop("ref_text", None)
+    return e
